@@ -1,3 +1,3 @@
 From Coq Require Import ZArith List Extraction ExtrOcamlBasic.
 From Sky Require Import Num G_select M_SelectNum.
-Extraction "model.ml" mat_dec mat_raband mat_box_ra mat_box_ra_b mat_box_dec mat_angerr row_psifunc Z.of_nat Z.to_nat.
+Extraction "model.ml" mat_dec mat_raband mat_box_ra mat_box_ra_b mat_box_dec mat_angerr row_psifunc angsep_floor_list Z.of_nat Z.to_nat.
